@@ -215,6 +215,16 @@ func c19LineShape(c *Ctx) {
 				return []tok{{"fmt", f}}
 			}
 		}
+		// the field's own value: f.Value().(string)
+		raw := strip(v)
+		if ex, ok := raw.(*ssa.Extract); ok && ex.Index == 0 {
+			raw = ex.Tuple
+		}
+		if ta, ok := raw.(*ssa.TypeAssert); ok {
+			if call, ok := strip(ta.X).(*ssa.Call); ok && calleeName(call) == "(*"+structsPkg+".Field).Value" {
+				return []tok{{"val", "field"}}
+			}
+		}
 		return []tok{{"val", ""}}
 	}
 	type alt struct {
@@ -334,7 +344,7 @@ func c19LineShape(c *Ctx) {
 			rest := p[1:]
 			switch reflect.Kind(kinds[i]) {
 			case reflect.String:
-				good = len(rest) == 3 && rest[0] == (tok{"lit", ":s:"}) && rest[1].kind == "val" && rest[2] == (tok{"lit", "\r\n"})
+				good = len(rest) == 3 && rest[0] == (tok{"lit", ":s:"}) && rest[1] == (tok{"val", "field"}) && rest[2] == (tok{"lit", "\r\n"})
 			case reflect.Int:
 				good = len(rest) == 3 && rest[0] == (tok{"lit", ":i:"}) && rest[1] == (tok{"fmt", "%d"}) && rest[2] == (tok{"lit", "\r\n"})
 			case reflect.Bool:
